@@ -23,9 +23,10 @@ struct Conf {
   double sigma;
   bool keep_hills, well_tempered, expand;
   double lower, upper;        // grid of d
+  bool rebin = false;         // restart onto a narrower grid [1.5,2.5] with rebinGrids on (keepHills)
 };
 
-static std::string conf_text(Conf const &c)
+static std::string conf_text(Conf const &c, bool rebinned = false)
 {
   std::string s;
   if (c.kind == 1) {
@@ -33,7 +34,7 @@ static std::string conf_text(Conf const &c)
   } else if (c.kind == 3) {
     s += "colvar {\n name d\n width 0.5\n distanceVec {\n group1 { atomNumbers 1 }\n group2 { atomNumbers 2 }\n }\n}\n";
   } else {
-    s += "colvar {\n name d\n width 0.5\n lowerBoundary " + num(c.lower) + "\n upperBoundary " + num(c.upper) + "\n" + (c.expand ? " expandBoundaries on\n" : "") +
+    s += "colvar {\n name d\n width 0.5\n lowerBoundary " + num(rebinned ? 1.5 : c.lower) + "\n upperBoundary " + num(rebinned ? 2.5 : c.upper) + "\n" + (c.expand ? " expandBoundaries on\n" : "") +
          " distance {\n group1 { atomNumbers 1 }\n group2 { atomNumbers 2 }\n }\n}\n";
   }
   if (c.kind == 2)
@@ -44,6 +45,7 @@ static std::string conf_text(Conf const &c)
   if (!c.grids) s += " useGrids off\n";
   if (c.grid_freq) s += " gridsUpdateFrequency " + std::to_string(c.grid_freq) + "\n";
   if (c.keep_hills) s += " keepHills on\n";
+  if (rebinned) s += " rebinGrids on\n";
   if (c.well_tempered) s += " wellTempered on\n biasTemperature 1500.0\n";
   s += "}\n";
   return s;
@@ -142,6 +144,7 @@ int main(int argc, char **argv)
       {"grids-2d", 2, true, 1, 0, 2.0, 0, false, false, false, 1.0, 3.0},
       {"nogrids-distanceVec", 3, false, 1, 0, 0, 0.4, false, false, false, 0, 0},
       {"grids-expandBoundaries", 0, true, 1, 0, 1.0, 0, false, false, true, 1.0, 3.0},
+      {"grids-keepHills-rebin-narrower", 0, true, 1, 0, 1.0, 0, true, false, false, -4.0, 9.0, true},
   };
   long nw = 1;
   for (int i = 0; i < L; i++) nw *= NL;
@@ -187,8 +190,9 @@ int main(int argc, char **argv)
                   px = new vproxy(4);
                   px->set_target_temperature(T);
                   place(*px, c, word[s], s);
-                  if (px->config(conf) != 0) { fprintf(stderr, "HARNESS-ERROR: %s rejected at restart\n", c.name); exit(2); }
+                  if (px->config(c.rebin ? conf_text(c, true) : conf) != 0) { fprintf(stderr, "HARNESS-ERROR: %s rejected at restart: %s\n", c.name, px->errtxt.c_str()); exit(2); }
                   px->queue_state_text(st);
+                  if (c.rebin) { ref.lo = 1.5; ref.up = 2.5; }
                   // saving the state tabulates every hill (documented: grids are brought up to date when written)
                   for (auto &h : ref.hills) h.tab = true;
                 }
